@@ -74,7 +74,7 @@ theorem stale_calls (ops : FOps) (s : Schema) (db' : Db) (id : Nat) (hg' : db'.g
   · simp only [step, remove, isValid, hg', lift]; rfl
   · intro x u
     simp only [step, hg']
-    exact lift_defined _ _ _ (writeStore_defined ops s x) u
+    exact lift_defined _ _ _ (update_defined ops s db' id x) u
 
 /-- **Stale handles, one step** (any table): right after `remove_track` the handle reports
 `is_valid() = false`; `id()`, copying, assigning and destroying it succeed (they touch no library state:
